@@ -100,53 +100,79 @@ Ltac step_cases H :=
   inversion H; subst; clear H.
 Ltac step_inv H := unfold step, wc in H; step_cases H.
 
-(* ------------------------------------------------------------------ invariant A: control state *)
+(* ------------------------------------------------------------------ boolean tests on program counters
+   (invariants are phrased with these so that [lia] (with ZifyBool) decides every proof step) *)
+
+Definition spc_eqb (a b : spc) : bool :=
+  match a, b with
+  | SLoop, SLoop | SCheck, SCheck | SSelect, SSelect | SFail, SFail | SWait, SWait
+  | SRemoved, SRemoved | SRet, SRet => true | _, _ => false end.
+Definition rpc_eqb (a b : rpc) : bool :=
+  match a, b with RSel, RSel | RGot, RGot | RDeliv, RDeliv | RExit, RExit => true | _, _ => false end.
+Definition stpc_eqb (a b : stpc) : bool :=
+  match a, b with StInit, StInit | St1, St1 | St2, St2 | StRet, StRet => true | _, _ => false end.
+Definition q_sel p := match p with QSel => true | _ => false end.
+Definition q_got p := match p with QGot _ => true | _ => false end.
+Definition q_notify p := match p with QNotify => true | _ => false end.
+Definition q_stopping p := match p with QStopping => true | _ => false end.
+Definition q_exit p := match p with QExit => true | _ => false end.
+Definition p_sel p := match p with PSel => true | _ => false end.
+Definition p_loop p := match p with PLoop => true | _ => false end.
+Definition p_do p := match p with PDo _ => true | _ => false end.
+Definition p_exit p := match p with PExit => true | _ => false end.
+
+Lemma spc_eqb_eq a b : spc_eqb a b = true <-> a = b.
+Proof. destruct a, b; simpl; split; intro H; try reflexivity; discriminate. Qed.
+Lemma rpc_eqb_eq a b : rpc_eqb a b = true <-> a = b.
+Proof. destruct a, b; simpl; split; intro H; try reflexivity; discriminate. Qed.
+Lemma stpc_eqb_eq a b : stpc_eqb a b = true <-> a = b.
+Proof. destruct a, b; simpl; split; intro H; try reflexivity; discriminate. Qed.
 
 Definition is_done (p : spc) : bool :=
   match p with SWait | SRemoved | SRet => true | _ => false end.
+Definition in_do (p : spc) : bool :=
+  match p with SCheck | SSelect => true | _ => false end.
+
+(* ------------------------------------------------------------------ invariant A: control state *)
 
 (* [st] is the value of [stopped] *)
 Record ACaller (cf : config) (st : bool) (c : nat) (k : caller) : Prop := {
   ac_nxt : c_nxt k <= njobs cf c;
-  ac_lt : c_spc k = SCheck \/ c_spc k = SSelect -> c_nxt k < njobs cf c;
+  ac_lt : in_do (c_spc k) = true -> c_nxt k < njobs cf c;
   ac_cancel : c_cancel k = true -> can_cancel cf c = true;
-  ac_fail : c_spc k = SFail -> c_cancel k = true \/ st = true;
+  ac_fail : spc_eqb (c_spc k) SFail = true -> c_cancel k = true \/ st = true;
   ac_done : is_done (c_spc k) = true -> c_nxt k = njobs cf c \/ c_cancel k = true \/ st = true;
-  ac_end : c_end k = true -> c_spc k = SRet;
-  ac_exit : c_rpc k = RExit -> c_end k = true;
-  ac_hand : c_rpc k <> RDeliv -> c_hand k = [];
+  ac_end : c_end k = true -> spc_eqb (c_spc k) SRet = true;
+  ac_exit : rpc_eqb (c_rpc k) RExit = true -> c_end k = true;
+  ac_hand : rpc_eqb (c_rpc k) RDeliv = false -> length (c_hand k) = 0;
   ac_own : Forall (fun j => fst j = c) (c_hand k) }.
 
 Lemma ACaller_mono cf st st' c k : (st = true -> st' = true) -> ACaller cf st c k -> ACaller cf st' c k.
 Proof. intros Hm [? ? ? ? ? ? ? ? ?]. constructor; auto; intro; intuition. Qed.
 
 Record InvA (cf : config) (s : state) : Prop := {
-  a_stopped : st_pc s <> StInit -> stopped s = true;
+  a_stopped : stpc_eqb (st_pc s) StInit = false -> stopped s = true;
   a_canstop : stopped s = true -> can_stop cf = true;
   a_qclosed : qclosed s = true -> stopped s = true;
-  a_qexit : q_pc s = QStopping \/ q_pc s = QExit -> st_pc s = StRet;
-  a_final : p_final s = true <-> q_pc s = QExit;
-  a_pexit : p_pc s = PExit -> p_final s = true /\ queue s = [];
+  a_qexit : q_stopping (q_pc s) = true \/ q_exit (q_pc s) = true -> stpc_eqb (st_pc s) StRet = true;
+  a_final : p_final s = q_exit (q_pc s);
+  a_pexit : p_exit (p_pc s) = true -> p_final s = true /\ length (queue s) = 0;
   a_inputcap : length (input s) <= cap_in cf;
   a_tokens : length (running s) + returning s + idle s = active s /\ active s <= maxw cf;
-  a_queue : queue s <> [] ->
-            ntok s = true \/ p_pc s = PLoop \/ (exists j, p_pc s = PDo j) \/ q_pc s = QNotify;
+  a_queue : 0 < length (queue s) ->
+            ntok s = true \/ p_loop (p_pc s) = true \/ p_do (p_pc s) = true \/ q_notify (q_pc s) = true;
   a_caller : forall c, ACaller cf (stopped s) c (callers s c) }.
 
 Lemma invA_init cf : InvA cf init.
 Proof.
-  constructor; simpl; try solve [intuition (try congruence; try lia; try discriminate)].
-  intro c. constructor; simpl; intuition (try congruence; try lia; try discriminate; try constructor).
+  constructor; simpl; try lia.
+  intro c. constructor; simpl; try lia. constructor.
 Qed.
 
 Ltac bool_hyps :=
   repeat match goal with
   | H : (_ <? _) = true |- _ => apply Nat.ltb_lt in H
   | H : (_ <? _) = false |- _ => apply Nat.ltb_ge in H
-  | H : (_ || _) = true |- _ => apply orb_true_iff in H
-  | H : (_ || _) = false |- _ => apply orb_false_iff in H; destruct H
-  | H : (_ && _) = true |- _ => apply andb_true_iff in H; destruct H
-  | H : negb _ = true |- _ => apply negb_true_iff in H
   end.
 
 Lemma Forall_filter_caller c l : Forall (fun j : job => fst j = c) (filter (of_caller c) l).
@@ -158,12 +184,12 @@ Qed.
 Lemma take_nth_len k l j rest : take_nth k l = Some (j, rest) -> length l = S (length rest).
 Proof. intro H. exact (proj2 (take_nth_cnt (fun _ => true) _ _ _ _ H)). Qed.
 
-Ltac fin0 := intros; simpl in *; rewrite ?app_length in *; simpl in *;
-  first [congruence | lia | discriminate | assumption | apply Forall_filter_caller
-        | (eapply Forall_inv_tail; eassumption) | constructor; fail ].
-Ltac fin := first [ assumption | solve [fin0]
-  | solve [simpl in *; rewrite ?app_length in *; simpl in *;
-           intuition (try congruence; try lia; eauto; try discriminate)] ].
+Ltac fin := first
+  [ assumption
+  | solve [simpl in *; rewrite ?app_length in *; simpl in *; lia]
+  | apply Forall_filter_caller
+  | solve [eapply Forall_inv_tail; eassumption]
+  | solve [constructor] ].
 
 (* expose the record of caller c (and its ACaller facts) before inverting a step *)
 Ltac open_caller HC c :=
@@ -184,7 +210,7 @@ Ltac caller_goal HC :=
   | |- _ => (refine (ACaller_mono _ _ _ _ _ _ (HC c')); simpl; solve [auto | fin])
   end.
 
-Ltac invA_label HC :=
+Ltac open_label HC :=
   match goal with
   | H : step _ _ ?l = Some _ |- _ =>
       unfold step, wc in H;
@@ -199,20 +225,9 @@ Ltac invA_label HC :=
 Lemma invA_step cf s l s' : InvA cf s -> step cf s l = Some s' -> InvA cf s'.
 Proof.
   intros [Hst Hcs Hqc Hqe Hfi Hpe Hic Htk Hqu HC] H.
-  destruct l; invA_label HC;
-  try (match goal with H : take_nth _ _ = Some _ |- _ =>
-         pose proof (take_nth_len _ _ _ _ H); open_caller HC (fst j) end);
-  (constructor; simpl;
-   [ clear Hcs Hqc Hqe Hfi Hpe Hic Htk Hqu HC; fin
-   | clear Hst Hqc Hqe Hfi Hpe Hic Htk Hqu HC; fin
-   | clear Hcs Hqe Hfi Hpe Hic Htk Hqu HC; fin
-   | clear Hst Hcs Hqc Hfi Hpe Hic Htk Hqu HC; fin
-   | clear Hst Hcs Hqc Hqe Hpe Hic Htk Hqu HC; fin
-   | clear Hst Hcs Hqc Hqe Hic Htk Hqu HC; fin
-   | clear Hst Hcs Hqc Hqe Hfi Hpe Htk Hqu HC; fin
-   | clear Hst Hcs Hqc Hqe Hfi Hpe Hic Hqu HC; fin
-   | clear Hst Hcs Hqc Hqe Hfi Hpe Hic Htk HC; fin
-   | clear Hcs Hqe Hfi Hpe Hic Htk Hqu; caller_goal HC ]).
+  destruct l; open_label HC;
+  try (match goal with H : take_nth _ _ = Some _ |- _ => pose proof (take_nth_len _ _ _ _ H) end);
+  (constructor; simpl; [ fin | fin | fin | fin | fin | fin | fin | fin | fin | caller_goal HC ]).
 Qed.
 
 Lemma invA_reachable cf s : reachable cf s -> InvA cf s.
